@@ -197,3 +197,109 @@ Example C04_example_reentry :
             execq (log (sg s)) = [7; 3] /\ pc s = LDone /\ pending (sg s) = [] /\
             length (filter (fun e => match e with ERet => true | _ => false end) (log (sg s))) = 2.
 Proof. eexists. split; [vm_compute; reflexivity|]. vm_compute. auto. Qed.
+
+
+(* ========================================================================================== *)
+(* Cross-model links (appended; owner: the links, docs/Link.md section L2)                      *)
+(* ========================================================================================== *)
+(* C09's model of one EventLoop iteration (P = C09_Model: loop_iter_full_env / loop_run; PP =
+   C09_ProofsLoop) carries a functor queue and a wake-up counter but has external events only
+   BETWEEN iterations.  Link_LoopQueue shows that its queue behaviour is a schedule of THIS file's
+   micro-step transition system (L = C04_Model, LP = C04_Proofs): the loop thread's steps L3..L7
+   with no foreign thread moving in between; and that C09's run invariant is this file's NoStall
+   read at the poll. *)
+From Coq Require Import NArith.
+From Muduo Require Import Link_LoopQueue Link_Properties_L2a.
+
+(* what is related: a state of this model whose loop thread is about to poll, and the
+   (environment, queue) pair C09's run carries from one iteration to the next *)
+Theorem C04_link_relation_def : forall s e p, Rq s e p <->
+  (L.pc s = L.LPoll /\ L.calling (L.sg s) = false /\ L.looping (L.sg s) = true /\
+   N.of_nat (L.evfd (L.sg s)) = P.k_wake e /\ L.pending (L.sg s) = p).
+Proof. exact L2a_relation_def. Qed.
+Print Assumptions C04_link_relation_def.
+
+Theorem C04_link_defs : forall labs scr q,
+  (loop_only labs <-> Forall (fun l => l = L.TLoop \/ l = L.TRead) labs) /\
+  (pure_q scr q <-> forall n, scr n = map L.AQueue (q n)).
+Proof. exact L2a_defs. Qed.
+Print Assumptions C04_link_defs.
+
+(* HEADLINE.  Whatever back-end, channels, callbacks and Channel-API calls C09's iteration
+   involves: from a state of this model related to C09's (environment, queue) pair, the loop
+   thread alone (labels TLoop / TRead only) reaches the end of its batch having run exactly C09's
+   batch [ran] in order, with C09's left-over queue and C09's wake-up counter.  Hypotheses: the
+   wake-up guard is the same function (wake sh; both sides are tied to EventLoop::queueInLoop by
+   their own generated facts); functors and callbacks only queue (what functor i queues is q i on
+   both sides); the callbacks of C09's batch queue what the event this model's poll dispatches
+   queues; this model's poll has a reason to return; handleRead drains the wake-up descriptor. *)
+Theorem C04_iteration_is_loop_thread_schedule :
+  forall S step h hq fb runs eff wfd tfd sh scr q s st e pending choice st' e' pend' act log ran,
+  P.loop_iter_full_env S step h hq fb runs eff (L.wake sh) wfd tfd st e pending choice
+    = P.Ok (st', e', pend', (act, log, ran)) ->
+  Rq s e pending ->
+  pure_q scr q -> (forall i, In i ran -> snd (fb i) = q i) ->
+  flat_map (fun ck => hq (fst ck) (snd ck)) log = (match L.evq (L.sg s) with k :: _ => q k | [] => [] end) ->
+  L.poll_ready (L.sg s) = true ->
+  P.k_wake (P.apply_effects eff log e) = 0%N ->
+  exists labs s', loop_only labs /\ L.run sh scr s labs = Some s' /\
+    L.pc s' = L.LTest /\ L.lcode s' = [] /\
+    L.calling (L.sg s') = false /\ L.looping (L.sg s') = true /\
+    L.fcode s' = L.fcode s /\ L.lnext s' = L.lnext s /\ L.quit (L.sg s') = L.quit (L.sg s) /\
+    L.evq (L.sg s') = tl (L.evq (L.sg s)) /\
+    N.of_nat (L.evfd (L.sg s')) = P.k_wake e' /\
+    L.pending (L.sg s') = pend' /\
+    L.execq (L.log (L.sg s')) = L.execq (L.log (L.sg s)) ++ ran.
+Proof. exact L2a_iteration_is_loop_thread_schedule. Qed.
+Print Assumptions C04_iteration_is_loop_thread_schedule.
+
+(* after the batch the loop thread tests quit_ and polls again: the relation is re-established,
+   so iterations compose *)
+Theorem C04_link_next_poll : forall sh scr s e p,
+  L.pc s = L.LTest -> L.quit (L.sg s) = false -> L.calling (L.sg s) = false -> L.looping (L.sg s) = true ->
+  N.of_nat (L.evfd (L.sg s)) = P.k_wake e -> L.pending (L.sg s) = p ->
+  exists s', L.step sh scr s L.TLoop = Some s' /\ Rq s' e p /\ L.sg s' = L.sg s /\ L.fcode s' = L.fcode s.
+Proof. exact L2a_next_poll. Qed.
+Print Assumptions C04_link_next_poll.
+
+(* C09's external event "a task is queued from another thread between two iterations" (XQueue i)
+   is the foreign thread's two micro-steps of this model while the loop thread is in poll *)
+Theorem C04_xqueue_is_foreign_microsteps : forall sh scr s e p i j rest,
+  Rq s e p -> nth_error (L.fcode s) j = Some (L.MQueue i :: rest) ->
+  exists s', L.run sh scr s [L.TF j; L.TF j] = Some s' /\
+    Rq s' (fst (P.apply_ext (L.wake sh) (e, p) (P.XQueue i))) (snd (P.apply_ext (L.wake sh) (e, p) (P.XQueue i))) /\
+    nth_error (L.fcode s') j = Some rest /\
+    L.execq (L.log (L.sg s')) = L.execq (L.log (L.sg s)).
+Proof. exact L2a_xqueue_is_foreign_microsteps. Qed.
+Print Assumptions C04_xqueue_is_foreign_microsteps.
+
+(* C09's run invariant (C09_queued_task_wakes: at every poll a non-empty task queue comes with a
+   non-zero wake-up counter) IS this file's NoStall read at the poll when no thread is between its
+   append and its wake-up; so it holds at every such poll of EVERY schedule of this model - any
+   number of foreign threads, any programs (C09 proved it for its own coarser runs only) *)
+Theorem C04_pend_inv_is_nostall : forall sh s e p, Rq s e p -> L.midwake sh s = false ->
+  (LP.NoStall sh s <-> (p <> [] -> (0 < P.k_wake e)%N)).
+Proof. exact L2a_pend_inv_is_nostall. Qed.
+Print Assumptions C04_pend_inv_is_nostall.
+
+Theorem C04_pend_inv_all_schedules : forall sh scr prefix later progs s e p,
+  L.wake_ok sh = true -> LP.reach sh scr (L.init prefix later progs) s ->
+  Rq s e p -> L.midwake sh s = false -> (p <> [] -> (0 < P.k_wake e)%N).
+Proof. exact L2a_pend_inv_all_schedules. Qed.
+Print Assumptions C04_pend_inv_all_schedules.
+
+(* non-vacuity: the hypotheses of C04_iteration_is_loop_thread_schedule are inhabited - C09's
+   witness iteration on the loop's constructor state (the timer callback queues functor 7, which
+   queues functor 8; wake-up guard generated from the current tree) against a state of this model
+   with event 9 (script: queue 7) ready *)
+Example C04_link_ex : exists st' e' act log,
+  P.loop_iter_full_env P.ep P.ep_step_current (fun _ _ => []) W.hq_ex W.fb_ex W.all_run
+    (PP.effects_current 1 0 (fun _ _ e => e)) (L.wake Gen_C04.gen_shape) 4 3 l2_st0 l2_e [] []
+    = P.Ok (st', e', [8], (act, log, [7])) /\
+  Rq l2_s l2_e [] /\ pure_q l2_scr l2_q /\
+  (forall i, In i [7] -> snd (W.fb_ex i) = l2_q i) /\
+  flat_map (fun ck => W.hq_ex (fst ck) (snd ck)) log = (match L.evq (L.sg l2_s) with k :: _ => l2_q k | [] => [] end) /\
+  L.poll_ready (L.sg l2_s) = true /\
+  P.k_wake (P.apply_effects (PP.effects_current 1 0 (fun _ _ e => e)) log l2_e) = 0%N /\
+  P.k_wake e' = 1%N.
+Proof. exact l2_ex_queue_link. Qed.
